@@ -5,6 +5,7 @@
                           \/ (inside the box at some earlier check /\ outside now). *)
 From Coq Require Import Reals List Lia Lra Bool Arith ZArith.
 From MV Require Import Ops RInst Vec Stopping StoppingP.
+From MV Require MD MDP.
 Import ListNotations.
 Open Scope R_scope.
 
@@ -56,3 +57,9 @@ Proof.
   rewrite (Ht (0 + 1)) by lra.
   cbn. eexists. eexists. split; reflexivity.
 Qed.
+
+(* the clock of the assembled MD loop (Model/MD.md_run): after N passes it shows t0 + N dt, whatever the forces *)
+Theorem C16_md_clock : forall (F : list R -> list R) m dt N s,
+  MDP.tm (MD.md_run ROps F m dt N s) = MDP.tm s + INR N * dt.
+Proof. intros. apply MDP.md_run_time. Qed.
+Print Assumptions C16_md_clock.
